@@ -112,10 +112,17 @@ def diagnose_hist(ls, mechanism, raw):
                 and mo[:2] == ('exc', 'ValueError')):
             return 'F25'
         # F26: Py in-place &= with a plain iterable holding None and others
+        # (for a one-shot iterator operand the model's copy of the operand
+        # tells what it held)
+        operand = raw['args'][0] if raw.get('args') else None
+        if not isinstance(operand, (list, tuple)) and raw.get('margs') and \
+                type(operand).__name__ in ('list_iterator', 'generator'):
+            operand = raw['margs'][0]
         if (impl == 'py' and op == 'iand' and ro[:2] == ('exc', 'TypeError')
-                and mo[0] == 'ok' and isinstance(raw['args'][0], (list, tuple))
-                and None in raw['args'][0]
-                and any(x is not None for x in raw['args'][0])):
+                and mo[0] == 'ok' and isinstance(operand, (list, tuple))
+                and None in operand and len(operand) >= 2):
+            # (None next to any other element, another None included: the
+            # plain sort then evaluates None < x)
             return 'F26'
         if (impl == 'py' and ls.fam.vc == 'F' and ro[0] == 'ok' == mo[0]
                 and _f32_equal(ro[1], mo[1])):
